@@ -261,7 +261,7 @@ func checkC10(c *Ctx) {
 	seen := map[string]bool{}
 	n := 0
 	deadlineBudget := c.Pick(40, 300) // histories containing the (slow) deadline failure
-	stride := c.Pick(24, 12)
+	stride := c.Pick(24, 60)
 	err = ReadLines(r.Emitted, func(line []byte) error {
 		var g struct {
 			H [][]any `json:"h"`
